@@ -11,6 +11,12 @@ use std::time::{Duration, Instant};
 
 pub const VERIF_DIR: &str = "/verif";
 
+/// Output root (evidence, replays, known findings); `QVMON_VERIF_DIR` overrides it so that
+/// mutation trials on scratch copies do not touch /verif.
+pub fn verif_dir() -> String {
+    std::env::var("QVMON_VERIF_DIR").unwrap_or_else(|_| VERIF_DIR.to_string())
+}
+
 #[derive(Clone, Copy, PartialEq, Eq, Debug)]
 pub enum Tier {
     Quick,
@@ -116,7 +122,7 @@ pub fn init_ctx(prop: &'static str, tier: Tier, seed: u64, replay: Option<(Strin
 }
 
 fn load_known(prop: &str) -> Vec<Known> {
-    let p = format!("{VERIF_DIR}/known_findings.json");
+    let p = format!("{}/known_findings.json", verif_dir());
     let Ok(txt) = std::fs::read_to_string(&p) else {
         return vec![];
     };
@@ -241,7 +247,7 @@ impl Ctx {
                 println!("KNOWN-FINDING-NOT-HIT: property={} {} (listed as open but not observed in this run)", self.prop, k.signature);
             }
         }
-        let replay_dir = format!("{VERIF_DIR}/replays");
+        let replay_dir = format!("{}/replays", verif_dir());
         let _ = std::fs::create_dir_all(&replay_dir);
         let mut vio_list = vec![];
         for (sig, v) in i.violations.iter() {
@@ -295,8 +301,8 @@ impl Ctx {
             "violations": i.violations.len(),
         });
         if self.replay.is_none() {
-            let path = format!("{VERIF_DIR}/evidence/{}.json", self.prop);
-            let _ = std::fs::create_dir_all(format!("{VERIF_DIR}/evidence"));
+            let path = format!("{}/evidence/{}.json", verif_dir(), self.prop);
+            let _ = std::fs::create_dir_all(format!("{}/evidence", verif_dir()));
             if let Err(e) = std::fs::write(&path, serde_json::to_string_pretty(&ev).unwrap()) {
                 println!("HARNESS-ERROR cannot write evidence {path}: {e}");
                 return 1;
